@@ -148,6 +148,28 @@ CLAIMED.update({
         design='§5 C20'),
 })
 
+CLAIMED.update({
+    'C10': dict(
+        text='Theorems output_chunks_invisible (for every buffer size: file = label ++ visible records, reported total = '
+             'size, every on-disk state after a physical write is label + a whole number of visible records), '
+             'output_chunk_independent, input_chunks_invisible (every input chunk size >= 1 or None yields the rows '
+             'once in order), file_is_frameFile, chunk_accepted_iff. Tie: physical writes (flush-tap, file read back '
+             'at every flush) vs runOutput for EVERY output chunk size from the record length to file size+1, every '
+             'input chunk size, integral/fractional floats, random prior content.',
+        note="PARTIAL: 'wb' replaces / 'ab' appends is OS behaviour, stated in the model (diskAfter) and observed by the "
+             "correspondence. output_chunk_size=0/None means the 4 GiB default and is not exercised.",
+        technique='Lean 4 proof (buffer invariant by induction over visible records + chunking lemma) + correspondence',
+        design='§5 C10'),
+    'C11': dict(
+        text='Theorems sources_agree (sources agreeing on the datasets the channels map to give the same rows: '
+             'permutation, extra datasets, dict vs file), lookup_skip/lookup_swap, window_is_slice (writing with a '
+             'window = writing the pre-sliced rows), window_rows_exact, hdf5_path_normalised. Tie: whole files for 4 '
+             'source kinds x every window x chunk sizes compared byte for byte with the pre-sliced dict source.',
+        note='PARTIAL: numpy/h5py field access, slicing and the structured-array fast path are outside the model.',
+        technique='Lean 4 proof (congruence over dataset lookup + window lemma) + exhaustive-window correspondence',
+        design='§5 C11'),
+})
+
 PENDING_REASON = 'check not built yet in this revision (model layer under construction); see DESIGN.md §12 build order'
 
 
